@@ -485,22 +485,24 @@ class C05(Cfg):
         "and the paging theorem, for every data set, every query of the covered subset and every page size n>=1: if the selected rows have strictly increasing (i.e. pairwise different, the result being sorted) "
         "key tuples and no absent key, iterating `first n, after(keys of the last row)` from the start yields the selected rows in order, each exactly once (induction on the sorted list, no bound). "
         "Counter-examples (decide-checked) for ties, for absent keys and for a sub-selection that has the same key as its parent. "
-        "PROVED for the single-entity fragment (C05_compile_correct, no bound on schema, data or query): Model/SqlGen.lean is a literal model of SingleQuery::build / get_entity_query / get_fields / get_where_filters / get_paging / get_order / get_limit / add_param "
-        "(a SQL tree: json_object projection, WHERE conjuncts incl. the CASE-default form, paging disjunction, ORDER BY, LIMIT/OFFSET, bound-parameter list; `render` prints it) and Model/SqlSem.lean states what SQLite computes for such a tree on a _node table; "
-        "for every data model, data set, injective short naming, variable naming and every query of the fragment (one entity selection: scalar Integer/String/Boolean fields required/nullable/with default, aliases, the id field; filters = != < <= > >= on aliases and on selected or unselected fields "
-        "with literal, null and variable values incl. the default-aware CASE rule; order_by on any number of keys asc/desc on aliases or fields; literal first/skip; before or after with literal values) "
-        "SqlSem.run (table of data) (compile q) params = eval Defects.asImplemented data q as lists of JSON objects, same order (undefined order = order of the data list on both sides; holds for every order of that list). "
+        "PROVED (C05_compile_correct, C05_compile_correct_sub; no bound on schema, data or query): Model/SqlGen.lean + SqlGenSub.lean are a literal model of SingleQuery::build / get_entity_query / get_fields / get_where_filters / get_paging / get_order / get_limit / add_param "
+        "and of get_sub_entity_query / get_sub_group_array / get_exists_query (a SQL tree: json_object projection incl. scalar sub-queries and json_group_array sub-selects over `_edge JOIN _node`, EXISTS conjuncts, WHERE conjuncts incl. the CASE-default form, paging disjunction, ORDER BY, LIMIT/OFFSET, "
+        "one bound-parameter list for the whole statement; `render` / `render1` print it) and Model/SqlSem.lean + SqlSemSub.lean state what SQLite computes for such a tree on the _node and _edge tables; "
+        "for every data model, data set (ids are keys), injective short naming, variable naming and every query of the fragment - one entity selection with scalar Integer/String/Boolean fields required/nullable/with default, aliases, the id field; filters = != < <= > >= on aliases and on selected or unselected fields "
+        "with literal, null and variable values incl. the default-aware CASE rule; order_by on any number of keys asc/desc on aliases or fields; literal first/skip; before or after with literal values; "
+        "and ONE LEVEL of sub-selections through entity and array reference fields, each again with its own selections, filters, order_by, first/skip, cursors, with nullable(key) / nullable fields optional and the others mandatory (EXISTS) - "
+        "SqlSem.run (tables of data) (compile q) params = eval Defects.asImplemented data q as lists of JSON objects (nested objects and arrays included), same order (undefined order = order of the data list on both sides; holds for every order of that list). "
         "The code's deviations (order-ignores-default, explicit-null-hides-default, bool-default-returned-as-number, null-param-filter-no-match, cursors dropping absent keys) are derived from the generated SQL, not assumed. "
-        "Tie of that theorem to the code, on every run: for every generated query of the fragment the text printed by `render (compile q)` equals SingleQuery.sql_query byte for byte, the bound values equal those of build_query_params, "
-        "the rows SqlSem.run predicts equal the rows the real SQLite returns (tie groups as multisets), and the modelled _node table equals the stored one (signatures sql-text-mismatch, sql-semantics-mismatch). "
-        "Outside the fragment (sub-selections through references, nullable(), aggregates, json selectors, reference null tests) the statement `the SQL compiler implements eval` is NOT proved: it is decided by the differential run of every check: generated data models "
+        "Tie of these theorems to the code, on every run: for every generated query of the fragment the text printed by `render (compile q)` equals SingleQuery.sql_query byte for byte, the bound values equal those of build_query_params, "
+        "the rows SqlSem.run predicts equal the rows the real SQLite returns (tie groups as multisets), and the modelled _node and _edge tables equal the stored ones (signatures sql-text-mismatch, sql-semantics-mismatch). "
+        "Outside the fragment (sub-selections deeper than one level or whose key is the alias of the parent table, aggregates, json selectors, reference null tests, search) the statement `the SQL compiler implements eval` is NOT proved: it is decided by the differential run of every check: generated data models "
         "(namespaces, Integer/String/Boolean fields required/nullable/with default/added in a later model version, entity and array references incl. self references), data sets with ties and absent values on purpose, "
         "and type-directed queries (aliases, nesting depth <= 3, filters on selected and unselected fields with literals and parameters, 1-3 order keys, first/skip, before/after, nullable(), id, reference null tests, json selectors, count/min/max with grouping and having-filters) are evaluated by the compiled Lean evaluator "
         "and by the real QueryParser + PreparedQueries + Query::read on SQLite; the JSON results are compared structurally (rows that tie on every visible order key as multisets). "
         "An independent second evaluator of the intended semantics (Python) is the oracle: every difference between it and the implementation must be explained by a listed deviation.")
     level_note = (
-        "Proved: laws of the evaluator, and - for single-entity queries (no sub-selection, no aggregate, no json selector, no search; literal first/skip and cursor values) - that the SQL the compiler MODEL generates means the evaluator's result "
-        "under the trusted SQL semantics Model/SqlSem.lean (three-valued comparisons, NULL < numbers < texts, -> / ->> / Ifnull / json_object on JSON scalars, WHERE alias `value`, stable ORDER BY, LIMIT/OFFSET). "
+        "Proved: laws of the evaluator, and - for entity selections with at most one level of sub-selections through reference fields (no aggregate, no json selector, no search, no reference null test; literal first/skip and cursor values; sub-selection keys other than the root alias) - that the SQL the compiler MODEL generates means the evaluator's result "
+        "under the trusted SQL semantics Model/SqlSem.lean + SqlSemSub.lean (three-valued comparisons, NULL < numbers < texts, -> / ->> / Ifnull / json_object on JSON scalars, WHERE alias `value`, stable ORDER BY, LIMIT/OFFSET, `_edge JOIN _node` correlated on the parent row, scalar sub-query / json_group_array / EXISTS). "
         "What ties the compiler model and the SQL semantics to query.rs and to SQLite is differential (sampled): text and bound values byte for byte, predicted rows vs real rows. The parser (query text -> EntityQuery: names, is_selected, typing) is not modelled: "
         "the fragment predicate `inFragment` states what it guarantees (distinct keys, aliases name a scalar selection, null literal only on nullable fields, cursor arity). "
         "Everything outside the fragment is differential only. "
@@ -512,8 +514,8 @@ class C05(Cfg):
         "The paging theorem's hypothesis is that the order-key tuples of the selected rows are pairwise different (and present, for the code as it is); that the result is sorted is a theorem (C05_result_sorted).")
     trusted_base = [
         "hand-written evaluator lean/DiscretModel/Model/Query.lean, tied to the code by the differential run (dv-query vs dmodel_query)",
-        "lean/DiscretModel/Model/SqlSem.lean: the semantics of the generated SQL fragment (our statement of what SQLite does), validated against the real SQLite by the sqlck stream",
-        "lean/DiscretModel/Model/SqlGen.lean: model of the SQL generator, validated byte for byte (text and bound values) against PreparedQueries::build by the sqlck stream",
+        "lean/DiscretModel/Model/SqlSem.lean, SqlSemSub.lean: the semantics of the generated SQL fragment (our statement of what SQLite does), validated against the real SQLite by the sqlck stream",
+        "lean/DiscretModel/Model/SqlGen.lean, SqlGenSub.lean: model of the SQL generator, validated byte for byte (text and bound values) against PreparedQueries::build by the sqlck stream",
         "harness/query: builds the data model, rows and query text from the op lines, canonicalises the JSON result (uids -> row numbers, tie runs sorted)",
         "checks/C05.py: the second (Python) evaluator used as oracle",
         "SQLite 3.45.3 (ORDER BY on mixed types, json functions) as observed",
@@ -565,15 +567,15 @@ class C05(Cfg):
         return lib.read_lines(p + ".model")
 
     def sql_oracle(self, ops, outs):
-        if not any(o.split(" ", 1)[0] in ("sqlck", "sqltbl") for o in ops): return []
+        if not any(o.split(" ", 1)[0] in ("sqlck", "sqltbl", "sqledge") for o in ops): return []
         mod = self._model_outs(ops)
         if mod is None or len(mod) != len(outs):
             return [("sql-text-mismatch", "the model driver gave no answer for the case")]
         res = []
         for op, out, m in zip(ops, outs, mod):
             k = op.split(" ", 1)[0]
-            if k == "sqltbl" and out != m:
-                res.append(("sql-semantics-mismatch", "stored _node table: impl %s model %s" % (out[:150], m[:150])))
+            if k in ("sqltbl", "sqledge") and out != m and (out.startswith(("tbl=", "edges=")) or m.startswith(("tbl=", "edges="))):
+                res.append(("sql-semantics-mismatch", "stored %s table: impl %s model %s" % ("_node" if k == "sqltbl" else "_edge", out[:150], m[:150])))
             if k != "sqlck" or out == m: continue
             fi = dict(x.split("=", 1) for x in out.split(" ") if "=" in x)
             fm = dict(x.split("=", 1) for x in m.split(" ") if "=" in x)
